@@ -1,6 +1,45 @@
-(* Property C01 - no inflation: coins are conserved in every committed ledger state. *)
-From Virel Require Import Lib.Config Lib.U64 Lib.AMap Model.Ledger Model.Node Proofs.NodeBasics.
+(* Property C01 - no inflation: coins are conserved in every committed ledger state.
+   Statements only; proofs are in Proofs/Conservation.v and Proofs/NodeBasics.v. *)
+From Virel Require Import Lib.Config Lib.U64 Lib.AMap Model.Emission Model.Ledger Model.Node
+  Proofs.Emission Proofs.Conservation Proofs.NodeBasics Gen.Params.
 Open Scope N_scope.
+
+(* side condition on the constants, discharged at every generated configuration *)
+Theorem C01_cfg_ok_mainnet : cfg_ok_emission cfg_mainnet = true. Proof. vm_compute. reflexivity. Qed.
+Theorem C01_cfg_ok_testnet : cfg_ok_emission cfg_testnet = true. Proof. vm_compute. reflexivity. Qed.
+Theorem C01_cfg_ok_unittest : cfg_ok_emission cfg_unittest = true. Proof. vm_compute. reflexivity. Qed.
+Theorem C01_cfg_ok_verifnet : cfg_ok_emission cfg_verifnet = true. Proof. vm_compute. reflexivity. Qed.
+
+(* A transaction of any of the five kinds that passes the amount checks of stateless validation
+   ([tx_total] defined: no overflow of amounts + fee) and is applied to ANY ledger whose balances sum to less than
+   2^64 removes exactly its fee from the sum of all balances (burn and pool accounts included). *)
+Theorem C01_apply_tx_conserves : forall cfg l t h bh top_h l' tot,
+  total_bal l < two64 -> wf_tx cfg t -> tx_total cfg t = Some tot ->
+  apply_tx cfg l t h bh top_h = Ok l' -> total_bal l' + tx_fee t = total_bal l.
+Proof. exact apply_tx_total. Qed.
+Print Assumptions C01_apply_tx_conserves.
+
+(* Applying a block (any version, stake status, transaction list) to a ledger adds exactly the block reward of its
+   height: fees are moved, not created; the coinbase split neither creates nor loses a unit. *)
+Theorem C01_apply_block_adds_reward : forall cfg genesis_addr, cfg_ok_emission cfg = true ->
+  forall l b top_h l',
+  total_bal l + reward cfg (lb_height b) <= max_supply cfg ->
+  Forall (tx_ok cfg) (lb_txs b) ->
+  apply_block cfg genesis_addr l b top_h = Ok l' ->
+  total_bal l' = total_bal l + reward cfg (lb_height b).
+Proof. exact apply_block_total. Qed.
+Print Assumptions C01_apply_block_adds_reward.
+
+(* Along a chain of any length the sum of all balances is the scheduled emission for the tip height and never
+   exceeds the maximum supply; consequently (C07) no balance can wrap. *)
+Theorem C01_chain_supply : forall cfg genesis_addr, cfg_ok_emission cfg = true ->
+  forall bs l (h : nat) l',
+  total_bal l = sum_rewards cfg h -> heights_from h bs ->
+  Forall (fun b => Forall (tx_ok cfg) (lb_txs b)) bs ->
+  apply_chain cfg genesis_addr l bs = Ok l' ->
+  total_bal l' = sum_rewards cfg (h + length bs) /\ total_bal l' <= max_supply cfg.
+Proof. exact apply_chain_supply. Qed.
+Print Assumptions C01_chain_supply.
 
 (* a rejected (or crashing) delivery returns exactly the node it was given *)
 Theorem C01_reject_unchanged : forall cfg genesis_addr team_key n b now n' c amb,
